@@ -14,6 +14,7 @@
  *   - every non-empty view handed back lies inside the input (or the URI's own copy)
  *   - caller-provided output storage: canaries intact, len <= capacity
  *   - CBOR: remaining length never increases; loops over the input make progress
+ *   - per-case watchdog on CPU time (--p0 seconds, default 10): key C04:<target>:hang
  */
 #include "mon.h"
 
@@ -33,7 +34,9 @@
 #include <dirent.h>
 #include <fcntl.h>
 #include <stdlib.h>
+#include <signal.h>
 #include <sys/mman.h>
+#include <sys/time.h>
 #include <sys/stat.h>
 #include <sys/wait.h>
 #include <unistd.h>
@@ -2414,6 +2417,26 @@ static void run_deep_case(void) {
     ++s_stats[T_CBOR_WHOLE].cases;
 }
 
+/* ================================================================== per-case watchdog
+ * CPU time of this process (ITIMER_PROF), not wall-clock: independent of machine load. A sequential case normally
+ * takes well under 10 ms; 10 s of CPU inside one case is non-termination for the purposes of the property. The
+ * handler records the witness and lets the default action kill the process; the driver restarts the slice after
+ * the offending case. */
+#define WATCHDOG_CPU_SECONDS 10
+static void on_watchdog(int sig) {
+    (void)sig;
+    mon_violation(tkey("hang"), "case still running after %d s of CPU time (normal: < 10 ms); input(%zu)=%s", WATCHDOG_CPU_SECONDS,
+                  s_in_len, s_in ? in_hex() : "");
+    signal(SIGPROF, SIG_DFL);
+    raise(SIGPROF);
+}
+static void watchdog_arm(bool on) {
+    struct itimerval it;
+    memset(&it, 0, sizeof(it));
+    it.it_value.tv_sec = on ? (mon_run.param[0] > 0 ? mon_run.param[0] : WATCHDOG_CPU_SECONDS) : 0;
+    setitimer(ITIMER_PROF, &it, NULL);
+}
+
 /* ================================================================== case driver */
 static enum target s_targets[T_COUNT];
 static size_t s_ntargets;
@@ -2571,6 +2594,7 @@ int main(int argc, char **argv) {
         (mon_flag_name)(i, k_flag_names[i]);
     }
     s_alloc = mon_guard_allocator();
+    signal(SIGPROF, on_watchdog);
     bb_init(&s_doc, DOC_CAP);
     bb_init(&s_aux, DOC_CAP);
     if (!C04_ASAN) {
@@ -2584,7 +2608,11 @@ int main(int argc, char **argv) {
     uint64_t c;
     while (mon_next_case(&c)) {
         mon_case_begin(c);
+        s_in = NULL;
+        s_in_len = 0;
+        watchdog_arm(true);
         bool nontrivial = run_case(c);
+        watchdog_arm(false);
         mon_case_end(nontrivial);
     }
     static char names[T_COUNT][6][32];
